@@ -527,7 +527,7 @@ pub fn worker_main(prop: &dyn Prop, a: &WorkerArgs) -> i32 {
                     if let Some(_k) = match_known(&known, &f.signature, &f.traits) {
                         if !shrinking {
                             let mut kh = known_hits.borrow_mut();
-                            let key = format!("{}|{}", f.signature, f.traits.join("+"));
+                            let key = format!("{}|{}", f.signature, f.traits.join(","));
                             let e = kh.entry(key).or_insert((0, tape_vec.clone()));
                             e.0 += 1;
                             if tape_vec.len() < e.1.len() {
@@ -575,7 +575,7 @@ pub fn worker_main(prop: &dyn Prop, a: &WorkerArgs) -> i32 {
             .map(|(s, (n, t))| {
                 let mut it = s.splitn(2, '|');
                 let sig = it.next().unwrap_or("").to_string();
-                let traits: Vec<String> = it.next().unwrap_or("").split('+').filter(|x| !x.is_empty()).map(|x| x.to_string()).collect();
+                let traits: Vec<String> = it.next().unwrap_or("").split(',').filter(|x| !x.is_empty()).map(|x| x.to_string()).collect();
                 json!({"signature": sig, "traits": traits, "count": n, "tape": tape_to_json(&t), "identity": identity})
             })
             .collect();
@@ -677,7 +677,7 @@ fn absorb_line(sup: &mut Sup, v: &Value) {
     }
     if let Some(a) = v["known"].as_array() {
         for k in a {
-            let sig = format!("{}|{}", k["signature"].as_str().unwrap_or(""), traits_of(k).join("+"));
+            let sig = format!("{}|{}", k["signature"].as_str().unwrap_or(""), traits_of(k).join(","));
             let e = sup.known_hits.entry(sig).or_insert((0, json!({"tape": k["tape"].clone(), "identity": k["identity"].clone()})));
             e.0 += k["count"].as_u64().unwrap_or(0);
         }
@@ -736,7 +736,7 @@ pub fn supervisor_main(prop: &dyn Prop, a: &RunArgs) -> i32 {
                     if code == 1 {
                         // the replay still fails: report with its signature
                         let sig = so.lines().find_map(|l| l.strip_prefix("SIGNATURE ")).unwrap_or("replay-failed").to_string();
-                        let traits: Vec<String> = so.lines().find_map(|l| l.strip_prefix("TRAITS ")).map(|l| l.split('+').filter(|x| !x.is_empty()).map(|x| x.to_string()).collect()).unwrap_or_default();
+                        let traits: Vec<String> = so.lines().find_map(|l| l.strip_prefix("TRAITS ")).map(|l| l.split(',').filter(|x| !x.is_empty()).map(|x| x.to_string()).collect()).unwrap_or_default();
                         sup.failures.push(json!({"signature": sig, "traits": traits, "message": format!("saved replay {} fails", f.display()),
                             "detail": so, "replay_file": f.to_string_lossy()}));
                     } else if code != 0 {
@@ -777,7 +777,7 @@ pub fn supervisor_main(prop: &dyn Prop, a: &RunArgs) -> i32 {
         let sig = f["signature"].as_str().unwrap_or("").to_string();
         let traits = traits_of(f);
         if let Some(k) = match_known(&known, &sig, &traits) {
-            let e = sup.known_hits.entry(format!("{}|{}", sig, traits.join("+"))).or_insert((0, json!({"tape": f.get("tape").cloned().unwrap_or(Value::Null), "identity": f.get("identity").cloned().unwrap_or(Value::Null)})));
+            let e = sup.known_hits.entry(format!("{}|{}", sig, traits.join(","))).or_insert((0, json!({"tape": f.get("tape").cloned().unwrap_or(Value::Null), "identity": f.get("identity").cloned().unwrap_or(Value::Null)})));
             e.0 += 1;
             let _ = k;
             continue;
@@ -800,7 +800,7 @@ pub fn supervisor_main(prop: &dyn Prop, a: &RunArgs) -> i32 {
     for (key, (n, _)) in &sup.known_hits {
         let mut it = key.splitn(2, '|');
         let sig = it.next().unwrap_or("");
-        let traits: Vec<String> = it.next().unwrap_or("").split('+').filter(|x| !x.is_empty()).map(|x| x.to_string()).collect();
+        let traits: Vec<String> = it.next().unwrap_or("").split(',').filter(|x| !x.is_empty()).map(|x| x.to_string()).collect();
         if let Some(k) = match_known(&known, sig, &traits) {
             let e = known_seen.entry(k.id.clone()).or_insert((0, sig.to_string()));
             e.0 += n;
@@ -814,7 +814,7 @@ pub fn supervisor_main(prop: &dyn Prop, a: &RunArgs) -> i32 {
         for (key, (_, tv)) in &sup.known_hits {
             let mut it = key.splitn(2, '|');
             let sig = it.next().unwrap_or("");
-            let traits: Vec<String> = it.next().unwrap_or("").split('+').filter(|x| !x.is_empty()).map(|x| x.to_string()).collect();
+            let traits: Vec<String> = it.next().unwrap_or("").split(',').filter(|x| !x.is_empty()).map(|x| x.to_string()).collect();
             if let Some(k) = match_known(&known, sig, &traits) {
                 let p = dir.join(format!("{}.json", k.id));
                 if !p.exists() && tv["tape"].as_array().map(|a| !a.is_empty()).unwrap_or(false) {
@@ -1106,7 +1106,7 @@ pub fn replay_main(prop: &dyn Prop, file: &Path, quiet: bool) -> i32 {
         }
         Verdict::Fail(f) => {
             println!("SIGNATURE {}", f.signature);
-            println!("TRAITS {}", f.traits.join("+"));
+            println!("TRAITS {}", f.traits.join(","));
             if !quiet {
                 println!("{}", f.message);
                 println!("{}", serde_json::to_string_pretty(&f.detail).unwrap_or_default());
